@@ -1,6 +1,6 @@
 CHECK = {
     'level': 'exploration',
-    'rule': ('build-pipeline exploration (lib/clients.py): [call shapes] every declared function is additionally CALLED, in code that is compiled but never executed, with pointer arguments that are compound literals with a comma in their initialiser list (a function-like macro shadowing the function splits such an argument; a control TU with plain addresses separates generator problems from header problems); [client code after a header] a strict ISO C99 client (no feature-test macro) that defines its own getline/strdup/strnlen/dprintf/... and contains constructs that only draw warnings (shadowing, sign comparison, unused locals) is compiled with the project's warning flags after each cstl header placed FIRST; a control TU without the header decides whether the client code is acceptable at all; [client flags] the all-headers address-table client is additionally built with -Os, -O1, -O3, -Og, -Ofast, _FORTIFY_SOURCE, -fPIC, -fPIE, -pthread, -funsigned-char, -fno-inline, -ffast-math, -fgnu89-inline, -fno-common and NDEBUG and linked against the static and the shared library as shipped; [objects] every object the headers declare `extern` must be defined by libcstl.a and exported by libcstl.so; [name space] for every global symbol libcstl.a defines outside (__)cstl_* a client that has a function of that name and uses the same archive member must link and run. the project\'s own `make build` is run in a scratch copy of the '
+    'rule': ('build-pipeline exploration (lib/clients.py): [call shapes] every declared function is additionally CALLED, in code that is compiled but never executed, with pointer arguments that are compound literals with a comma in their initialiser list (a function-like macro shadowing the function splits such an argument; a control TU with plain addresses separates generator problems from header problems); [client code after a header] a strict ISO C99 client (no feature-test macro) that defines its own getline/strdup/strnlen/dprintf/... and contains constructs that only draw warnings (shadowing, sign comparison, unused locals) is compiled with the warning flags of the project after each cstl header placed FIRST; a control TU without the header decides whether the client code is acceptable at all; [client flags] the all-headers address-table client is additionally built with -Os, -O1, -O3, -Og, -Ofast, _FORTIFY_SOURCE, -fPIC, -fPIE, -pthread, -funsigned-char, -fno-inline, -ffast-math, -fgnu89-inline, -fno-common and NDEBUG and linked against the static and the shared library as shipped; [objects] every object the headers declare `extern` must be defined by libcstl.a and exported by libcstl.so; [name space] for every global symbol libcstl.a defines outside (__)cstl_* a client that has a function of that name and uses the same archive member must link and run. the project\'s own `make build` is run in a scratch copy of the '
              'working tree (Makefile, src, include, benches) -> libcstl.a, libcstl.so. Header list = include/cstl/*.h minus '
              'the guard-less template _string.h. The list of declared functions is read from the compiler (gcc -aux-info on '
              'bare include-only TUs). Generated C99 clients (project flags -Wall -Wextra -std=c99 -pedantic '
